@@ -121,13 +121,27 @@ class _Choices(object):
 
 
 def _run_and_check(w, rec, call):
+  """The model's random draw first, then every other outcome of randint (the property
+  quantifies over all outcomes of the balancer's random choices)."""
+  ok, text = _run_once(w, rec, call, None)
+  if ok:
+    return ok, text
+  size = len((w['objects'][w['params']['self']['ref']]['_heap'] or {}).get('items', [])) - 1
+  for j in range(1, max(size, 1) + 1):
+    ok2, text2 = _run_once(w, rec, call, j)
+    if ok2:
+      return True, text + '\n-- with random.randint forced to %d:\n' % j + text2
+  return False, text
+
+
+def _run_once(w, rec, call, forced):
   sink, nodes, node_of = build_balancer(w)
   pre = heap_violations(sink)
   text = ['entry heap: ' + describe(sink)]
   if pre:
     return False, '\n'.join(text + ['entry state violates the invariant itself (spurious model): %s' % pre])
   old = random.randint
-  random.randint = _Choices(w)
+  random.randint = _Choices(w) if forced is None else (lambda a, b: forced if a <= forced <= b else old(a, b))
   H.random.randint = random.randint
   try:
     try:
